@@ -1746,6 +1746,15 @@ where
         self.next_max_seen_event_number
     }
 
+    /// Return `true` if the subscription was removed while this report has been in flight
+    /// (see [`Subscriptions::remove`]): it is dropped when the report completes, whatever
+    /// the outcome, so there is no point in sending (more of) the report.
+    pub fn is_cancelled(&self) -> bool {
+        self.subscriptions
+            .state
+            .lock(|state| state.borrow().reporting_cancelled.is_some())
+    }
+
     /// Mark the subscription to be kept in the table after the report completes,
     /// meaning the other peer acknowledged our report.
     pub fn set_keep(&mut self) {
